@@ -570,14 +570,137 @@ class C10Churn(Prop):
             yield {**case, "n": case["n"] // 2}
 
 
+class C10Contexts(Prop):
+    """The signal asphalt itself relies on - `Context.resource_added` - with the objects asphalt itself puts around a
+    context: a component's own context (what `current_context()` is inside `prepare()`/`start()`) is another instance
+    than the context it stands for. Whoever looks at which of the two signals first, in whatever order: a listener on the
+    real context receives every event dispatched there - during start-up and after it, when the components' contexts are
+    gone -, stamped with the real context as its source. Decided on the implementation only."""
+    id = "C10"
+    kinds = ("ctxsignal",)
+
+    def generate(self, rng: random.Random, tier: str, index: int) -> dict[str, Any]:
+        return {"kind": "ctxsignal", "backend": ("asyncio", "trio")[index % 2], "component_first": rng.random() < 0.7,
+                "listen_in_start": rng.random() < 0.5, "own_listener": rng.random() < 0.5, "n_after": rng.randint(1, 3),
+                "timeout": rng.choice([None, 5])}
+
+    def exhaustive(self, tier: str):
+        return [{"kind": "ctxsignal", "backend": b, "component_first": cf, "listen_in_start": ls, "own_listener": ol,
+                 "n_after": 2, "timeout": to, "origin": "ctxsignal"}
+                for b in ("asyncio", "trio") for cf in (False, True) for ls in (False, True) for ol in (False, True)
+                for to in (None, 5)]
+
+    def run_impl(self, case):
+        import gc
+
+        import anyio
+
+        from asphalt.core import Component, Context, add_resource, current_context, start_component
+
+        from ..impl import vclock
+        from ..impl.kernel import TYPES
+
+        async def main() -> dict[str, Any]:
+            got: list[tuple[str, bool]] = []
+            own: list[str] = []
+            errors: list[str] = []
+            sent: list[str] = []
+
+            async with anyio.create_task_group() as tg:
+                async with Context() as ctx:
+                    listening = anyio.Event()
+
+                    async def listen() -> None:
+                        async with ctx.resource_added.stream_events(max_queue_size=1000) as stream:
+                            listening.set()
+                            async for ev in stream:
+                                got.append((ev.resource_name, ev.source is ctx))
+
+                    async def listen_own(cc: Any, started: Any) -> None:
+                        # a listener on the component's own context (whether anything is dispatched there is nobody's business
+                        # here: it only makes that signal a used one)
+                        async with cc.resource_added.stream_events(max_queue_size=1000) as stream:
+                            started.set()
+                            async for ev in stream:
+                                own.append(ev.resource_name)
+
+                    class Comp(Component):
+                        async def start(self) -> None:
+                            cc = current_context()
+                            if cc is ctx:
+                                errors.append("inside start() the current context is the surrounding context itself")
+                            if case["component_first"]:
+                                _ = cc.resource_added
+                            if case["own_listener"]:
+                                started = anyio.Event()
+                                tg.start_soon(listen_own, cc, started)
+                                await started.wait()
+                            if case["listen_in_start"] and not listening.is_set():
+                                tg.start_soon(listen)
+                                await listening.wait()
+                            add_resource(TYPES[0](1), "during")
+                            sent.append("during")
+
+                    if not case["listen_in_start"]:
+                        if not case["component_first"]:
+                            tg.start_soon(listen)
+                            await listening.wait()
+                    try:
+                        await start_component(Comp, timeout=case["timeout"])
+                    except BaseException as e:  # noqa: BLE001
+                        errors.append(f"start_component raised {type(e).__name__}: {e}")
+                    if not listening.is_set():
+                        tg.start_soon(listen)
+                        await listening.wait()
+                    for _ in range(3):
+                        await anyio.lowlevel.checkpoint()
+                    gc.collect()
+                    for k in range(case["n_after"]):
+                        try:
+                            ctx.add_resource(TYPES[0](10 + k), f"after{k}")
+                            sent.append(f"after{k}")
+                        except BaseException as e:  # noqa: BLE001
+                            errors.append(f"add_resource after start-up raised {type(e).__name__}")
+                    await anyio.sleep(1)
+                tg.cancel_scope.cancel()
+            late = not case["listen_in_start"] and case["component_first"]
+            return {"got": got, "own": own, "errors": errors, "sent": [s for s in sent if not (late and s == "during")]}
+
+        return vclock.run(main, backend=case["backend"])
+
+    def model_request(self, case, impl):
+        return None
+
+    def compare(self, case, impl, model):
+        return None
+
+    def monitor(self, case, impl):
+        fails = list(impl["errors"][:3])
+        names = [n for n, _ in impl["got"]]
+        if names != impl["sent"]:
+            fails.append(f"a listener on the context's resource_added received {names}, dispatched while it listened: {impl['sent']}")
+        if any(not ok for _, ok in impl["got"]):
+            fails.append("an event of the context's resource_added signal is not stamped with that context as its source")
+        return ["[C10] " + f for f in fails]
+
+    def nontrivial(self, case, impl):
+        return case["component_first"]
+
+    def features(self, case, impl):
+        return ["context_signal", "backend_" + case["backend"]] + (["component_looks_first"] if case["component_first"] else [])
+
+
 class C10(Composite):
     id = "C10"
     quick_cases = C10Main.quick_cases
     thorough_cases = C10Main.thorough_cases
-    parts = [(15, C10Main()), (1, C10Churn())]
+    parts = [(15, C10Main()), (1, C10Churn()), (1, C10Contexts())]
     rule = C10Main.rule + ("; one case in sixteen is a churn run: 2-6 short-lived subscribers (stream_events taking 1-3 "
                            "events, wait_event) come and go for several rounds while another task dispatches 15-40 events, "
-                           "one scheduling round apart; a subscriber that stays must get them all, dispatch must never raise")
+                           "one scheduling round apart; a subscriber that stays must get them all, dispatch must never raise; one in seventeen "
+                           "(and 32 enumerated cases) is about Context.resource_added with a component's own context beside the real "
+                           "one: whoever looks at which signal first, a listener on the real context gets every event, during start-up "
+                           "and after it, stamped with the real context")
     assumptions = C10Main.assumptions
 
 
